@@ -399,7 +399,8 @@ func propCheckMix(c Case) string {
 			return fmt.Sprintf("Likelihood(%v) = %g, expected %g", sel, expv(obs.Lik[q]), num/den)
 		}
 	}
-	return ""
+	// round 7: complementary component subsets (the complement listed in descending order)
+	return propMixComplement(c, obs, total)
 }
 
 // ---------------------------------------------------------------- shrinking
@@ -408,7 +409,10 @@ func shrink(c Case) Case {
 	if c.Kind == "bw" {
 		return shrinkBW(c)
 	}
-	if isMix(c) || c.Kind == "ctor0" {
+	if isMix(c) {
+		return shrinkMix(c)
+	}
+	if c.Kind == "ctor0" {
 		return c
 	}
 	if c.Kind == "hist" {
@@ -534,6 +538,7 @@ func hunt(o Opts) {
 		Case    Case   `json:"case"`
 		Tried   int    `json:"tried"`
 		Grid    int    `json:"grid_models"`
+		GridMix int    `json:"grid_mixtures"`
 		Known   []Known `json:"known"`
 	}
 	var r res
@@ -589,6 +594,18 @@ func hunt(o Opts) {
 			done = true
 		}
 	}
+	// round 7: exhaustive mixture grid (3 components, every ordering of every component subset)
+	if o.N > 0 {
+		for idx := 0; idx < mixGridTotal && !done; idx++ {
+			c := mixGridCase(idx)
+			r.Tried++
+			r.GridMix++
+			if propCheck(c) != "" {
+				report(c)
+				done = true
+			}
+		}
+	}
 	if !done {
 		rng := NewRng(o.Seed + 7919)
 		w := NewCaseWriter(o.Out, "huntcases", "", "mism", 1000)
@@ -602,12 +619,22 @@ func hunt(o Opts) {
 			} else if k%7 == 6 {
 				c = genHhmm(rr, w)
 			} else if k%5 == 4 {
-				c = genMix(rr, w)
+				if k%2 == 0 {
+					c = genMixSub(rr, w)
+				} else {
+					c = genMix(rr, w)
+				}
 			} else if k%5 == 3 {
-				c = genBW(rr, w)
+				if k%4 == 1 {
+					c = genBWZero(rr, w)
+				} else {
+					c = genBW(rr, w)
+				}
 				if k%10 == 8 {
 					c = reversedBW(c)
 				}
+			} else if k%4 == 2 {
+				c = genHmmZero(rr, w)
 			} else {
 				c = genHmm(rr, w)
 			}
